@@ -99,7 +99,21 @@ class ASTPrinter:
         return "$%s" % node.name.value
 
     def print_document(self, node: _ast.Document) -> str:
-        return _join(map(self, node.definitions), "\n\n") + "\n"
+        parts = []
+        previous = None  # type: Optional[_ast.Definition]
+        for definition in node.definitions:
+            printed = self(definition)
+            if (
+                printed.startswith("{")
+                and previous is not None
+                and not isinstance(previous, _ast.ExecutableDefinition)
+            ):
+                # Following a type system definition the short form would be
+                # read back as the body of that definition.
+                printed = "query " + printed
+            parts.append(printed)
+            previous = definition
+        return _join(parts, "\n\n") + "\n"
 
     def print_operation_definition(self, node: _ast.OperationDefinition) -> str:
         op = node.operation
